@@ -11,7 +11,15 @@ class CaseTimeout(BaseException):
     pass
 
 
+_STATE = {'fires': 0, 'finish': None}
+
+
 def _alarm(signum, frame):
+    # the timer keeps firing (interval): code under test that swallows the exception (a bare except, a finally that
+    # loops on) is interrupted again; if that does not help either, the worker writes what it has and leaves
+    _STATE['fires'] += 1
+    if _STATE['fires'] >= 6 and _STATE['finish'] is not None:
+        _STATE['finish']()
     raise CaseTimeout()
 
 CASE_TIMEOUT = float(os.environ.get('VERIF_CASE_TIMEOUT', '30'))
@@ -35,15 +43,30 @@ def main():
         return
     timeouts = 0
     with open(sys.argv[2]) as f:
-        for line in f:
+        all_lines = [l for l in f]
+    pos = {'i': 0}
+
+    def finish():
+        out.write(json.dumps({'_harness_exception': 'CaseTimeout: the implementation did not finish this case within %.0f s and '
+                              'kept running through repeated interrupts' % CASE_TIMEOUT, '_timeout': CASE_TIMEOUT}) + '\n')
+        for _ in all_lines[pos['i'] + 1:]:
+            out.write(json.dumps({'_harness_exception': 'skipped: an earlier case of this worker could not be interrupted',
+                                  '_skipped': True}) + '\n')
+        out.flush()
+        os._exit(0)
+    _STATE['finish'] = finish
+    if True:
+        for i, line in enumerate(all_lines):
+            pos['i'] = i
             case = json.loads(line)
             if timeouts >= 3:
                 # the implementation keeps hanging: the first timeouts are reported, do not spend minutes on the rest
                 out.write(json.dumps({'_harness_exception': 'skipped after 3 timeouts in this worker', '_skipped': True}) + '\n')
                 continue
             try:
+                _STATE['fires'] = 0
                 signal.signal(signal.SIGALRM, _alarm)
-                signal.setitimer(signal.ITIMER_REAL, CASE_TIMEOUT)
+                signal.setitimer(signal.ITIMER_REAL, CASE_TIMEOUT, 3.0)
                 try:
                     obs = mod.impl(case)
                 finally:
